@@ -4,6 +4,7 @@ import (
 	"crypto/sha256"
 	"encoding/hex"
 	"fmt"
+	"os"
 	"sort"
 	"strings"
 	"time"
@@ -96,6 +97,16 @@ func (pr *product) summarize(a Actor, p *drv.Party, inbox []*protocol.Message) *
 		}
 	} else {
 		s.Status = "noh"
+	}
+	if os.Getenv("NETSIM_DEBUG") != "" {
+		var l []string
+		for _, m := range inbox {
+			l = append(l, drv.MsgID(m))
+		}
+		fmt.Fprintf(os.Stderr, "DBG %s [%s] %s %s\n", a.Key, strings.Join(l, " "), s.Digest, s.Status)
+		if os.Getenv("NETSIM_DEBUG") == a.Key && p.H != nil && strings.HasPrefix(s.Status, "error") {
+			fmt.Fprintf(os.Stderr, "TRACE %s %s\n", s.Digest, strings.Join(DeepTrace(p.H), "\n   "))
+		}
 	}
 	if s.Closed {
 		s.Digest += "c"
@@ -220,7 +231,14 @@ func (w *PWorld) Events() []string {
 		}
 	}
 	sort.Strings(ev)
-	return ev
+	return w.sc.eagerOnly(ev, func(id string) string {
+		for _, p := range w.Pending {
+			if p.id == id {
+				return p.to
+			}
+		}
+		return ""
+	})
 }
 
 func (pr *product) apply(w *PWorld, e string) (*PWorld, error) {
@@ -415,9 +433,16 @@ func (sc *Scenario) Search(ck Checker, maxStates int64, deadline time.Time) *Sta
 		if strings.HasPrefix(v.Sig, "harness|") {
 			continue
 		}
-		lw, err := sc.Replay(v.History)
+		// The real handler processes queued messages of the next round in Go map order; when one of
+		// them makes it abort, what it had stored before aborting differs from run to run, so a
+		// history is replayed a few times before it is declared irreproducible.
 		ok := false
-		if err == nil {
+		var err error
+		for attempt := 0; attempt < 8 && !ok; attempt++ {
+			var lw *World
+			if lw, err = sc.Replay(v.History); err != nil {
+				continue
+			}
 			lw.AbsorbClosed()
 			var vs []Violation
 			if ck.State != nil {
